@@ -17,8 +17,9 @@ import (
 type defaultPacketLogger struct {
 	log logging.LeveledLogger
 
-	wg    sync.WaitGroup
-	close chan struct{}
+	wg      sync.WaitGroup
+	closeMu sync.Mutex
+	close   chan struct{}
 
 	rtpChan  chan *rtpDump
 	rtcpChan chan *rtcpDump
@@ -125,6 +126,8 @@ func (d *defaultPacketLogger) writeDumpedRTCP(dump *rtcpDump) error {
 // Close closes the PacketDumper.
 func (d *defaultPacketLogger) Close() error {
 	defer d.wg.Wait()
+	d.closeMu.Lock()
+	defer d.closeMu.Unlock()
 
 	if !d.isClosed() {
 		close(d.close)
